@@ -156,6 +156,9 @@ func (w *World) Key(name string) []byte {
 				k[i] = byte(w.rng.Intn(256))
 			}
 		}
+		if w.Text && n >= 3 && w.rng.Intn(2) == 0 {
+			k[1] = '%' // a key is not a format string
+		}
 		if w.Text && n >= 3 && w.rng.Intn(3) == 0 {
 			copy(k[n-2:], []byte{0xc2, 0xa0}) // ... and so is the UTF-8 form of a no-break space, here at the very end
 		}
